@@ -6,6 +6,9 @@ from vlib import flow
 
 U = 48                      # key universe of the d-ary heaps (same constant in harness and driver)
 RADICES = [2, 4, 8, 16, 64]
+# build_heap entry points: (first,last) over vector / deque / list / forward_list / a genuine single-pass
+# input iterator, build_heap(const vector&), build_heap(vector&&)
+BUILD_KINDS = ['it', 'dq', 'li', 'fl', 'sp', 'sp', 'cv', 'mv']
 KTYPES = {"i8": (8, True), "u8": (8, False), "i16": (16, True),
           "u32": (32, False), "i64": (64, True), "u64": (64, False)}
 
@@ -65,7 +68,7 @@ def gen_dary_case(rng, cid, nops):
         elif k < 0.72:
             m = rng.choice([0, 1, 2, 3, arity, arity + 1, arity + 2, 2 * arity + 1, 9, 17, 26])
             ks = [rng.choice(pool) for _ in range(m)]
-            lines.append(f"build {rng.choice(['it', 'cv', 'mv'])} " + (",".join(map(str, ks)) or "-"))
+            lines.append(f"build {rng.choice(BUILD_KINDS)} " + (",".join(map(str, ks)) or "-"))
             content = ks
             unsure = False
         elif k < 0.82:
@@ -144,7 +147,7 @@ def gen_addr_case(rng, cid, nops):
         elif k < 0.80:
             m = rng.choice([0, 1, 2, 3, arity + 1, 2 * arity + 1, 9, 17])
             ks = rng.sample(pool, min(m, len(pool)))
-            lines.append(f"build {rng.choice(['it', 'cv', 'mv'])} " + (",".join(map(str, ks)) or "-"))
+            lines.append(f"build {rng.choice(BUILD_KINDS)} " + (",".join(map(str, ks)) or "-"))
             inheap = set(ks)
             unc = set()
         elif k < 0.86:
@@ -254,6 +257,37 @@ def gen_radix_case(rng, cid, nops):
     return lines
 
 
+def gen_radix_clear_reuse_case(rng, cid):
+    """clear() after an extraction that made a first-row bucket != 0 the current one, then a key of the same
+    rank digit and a smaller one: a stale current_bucket_ would report the larger key first"""
+    radix = rng.choice(RADICES)
+    kt = rng.choice(list(KTYPES))
+    w, signed = KTYPES[kt]
+    lo = -(1 << (w - 1)) if signed else 0
+    lines = [f"case q{cid}", f"cfg radix {radix} {kt}"]
+    c = rng.randint(1, radix - 1)
+    # only keys of the first row at or behind digit c: the first non-empty bucket is c
+    first = [lo + c] + [lo + rng.randint(c, radix - 1) for _ in range(rng.randint(0, 3))]
+    for k in first:
+        lines.append(f"{rng.choice(['push', 'pushb', 'emplace'])} {k}")
+    lines.append(rng.choice(["top", "pop", "swap"]))
+    for _ in range(rng.randint(0, 2)):
+        lines.append(rng.choice(["pop", "peak", "size"]))
+    lines.append("clear")
+    d = rng.randint(0, c - 1)
+    second = [lo + c, lo + d]
+    if rng.random() < 0.5:
+        second.append(lo + rng.randint(0, radix * radix))
+    if rng.random() < 0.5:
+        second.reverse()
+    for k in second:
+        lines.append(f"{rng.choice(['push', 'pushb', 'emplaceb'])} {k}")
+    lines.append(rng.choice(["top", "peak", "pop"]))
+    lines.append("drain")
+    lines.append("size")
+    return lines
+
+
 class C13(flow.Spec):
     pid = "C13"
     source_files = ("tlx/container/d_ary_heap.hpp", "tlx/container/d_ary_addressable_int_heap.hpp",
@@ -292,6 +326,8 @@ class C13(flow.Spec):
             cs.append(gen_addr_case(rng, i, rng.choice([8, 20, 40, 80])))
         for i in range(n + n // 2):
             cs.append(gen_radix_case(rng, i, rng.choice([10, 30, 60, 120])))
+        for i in range(max(40, n // 6)):
+            cs.append(gen_radix_clear_reuse_case(rng, i))
         return cs
 
     def probe_lines(self, case, idx):
